@@ -58,8 +58,8 @@ CHECKS = {
              technique="z3 propositional equivalence between the compiled expansion (real expand_saved_queries + real query compiler) and the intended meaning over all tag assignments; CrossHair (z3) on the first-line word scan and the missing-reference path",
              note="atoms restricted to distinct tags (their truth assignments stand for all indexes); clause/reference shapes enumerated; cyclic sets excluded"),
  "C03": dict(design="§4 C03", engine="SQL",
-             technique="SMT equivalence (z3: strings, regex, ints, 3-valued NULL logic) between the SQLAlchemy clause tree of the real to_sql_select, interpreted over a symbolic database with 2 rows per table, and the filter's meaning; forked session stub for helpers that query during conversion; counter-databases and model-validation databases replayed on real SQLite",
-             note="trusted leaf models (LIKE, date(), CAST) validated on real SQLite each run; well-formed databases only; 2 rows per table; typed property values; ASCII strings of length <= 6; filter literals concrete"),
+             technique="SMT equivalence (z3: strings, regex, ints, 3-valued NULL logic) between the SQLAlchemy clause tree of the real to_sql_select, interpreted over a symbolic database with 3 note rows and 2 rows in every other table (link shapes: 2 note rows), and the filter's meaning; forked session stub for helpers that query during conversion; counter-databases and model-validation databases replayed on real SQLite",
+             note="trusted leaf models (LIKE, GLOB, date(), CAST) validated on real SQLite each run; well-formed databases only; 3 note rows, 2 rows per other table; typed property values; ASCII strings of length <= 6; filter literals concrete"),
 }
 NA = {}
 PENDING_REASON = "check not built yet in this round (planned, DESIGN.md §11); no claim is made until it is"
